@@ -325,6 +325,8 @@ def check(pid, tier, seed, shards=None, budget=None, replay=None, quiet=False):
     if foreign_tree() and not os.environ.get("RTMON_KEEP_LOGS"):
         import shutil
         shutil.rmtree(rundir, ignore_errors=True)
+        if not unlisted:
+            shutil.rmtree(os.path.join(VERIF, "replays", "alt-%d" % os.getpid()), ignore_errors=True)
     for l in kf_lines:
         print(l)
     for l in vlines:
